@@ -13,6 +13,9 @@
 #include <string>
 #include <vector>
 #include <dlfcn.h>
+#include <sstream>
+#include <string>
+#include <cmath>
 #include <unistd.h>
 
 static std::map<std::string, std::string> inputs;
@@ -90,6 +93,22 @@ void verif_fs_truncate(const char *name, long n) { if (truncate(name, n)) {} }
 void verif_fs_fail(const char *op, int times) { }
 void verif_fs_trace_begin(void) { }
 int verif_fs_crash_consistent(const char *name, const char *backup) { return 0; }   // crash points are examined on the interpreter's operation trace only
+void verif_text_equal(const char *a, long na, const char *b, long nb, const char *label) {
+  std::istringstream ia(std::string(a, na)), ib(std::string(b, nb));
+  std::string wa, wb; bool same = true, nums = true;
+  while (true) {
+    bool ga = bool(ia >> wa), gb = bool(ib >> wb);
+    if (ga != gb) { same = false; break; }
+    if (!ga) break;
+    if (wa == wb) continue;
+    char *ea = nullptr, *eb = nullptr;
+    double va = strtod(wa.c_str(), &ea), vb = strtod(wb.c_str(), &eb);
+    if (*ea || *eb || ea == wa.c_str() || eb == wb.c_str()) { same = false; break; }
+    if (!(fabs(va - vb) <= 1e-9 * (1.0 + fabs(va) + fabs(vb)))) nums = false;
+  }
+  printf("ASSERT %s.same_structure %s\n", label, same ? "ok" : "FAIL");
+  printf("ASSERT %s.numbers %s\n", label, nums ? "ok" : "FAIL");
+}
 long verif_param(const char *name, long dflt) { std::string k = std::string("param.") + name; if (has(k.c_str())) return strtol(inputs[k].c_str(), nullptr, 10); return dflt; }
 void verif_need_module(void) { static colvarproxy_stub *p = nullptr; if (!p && !cvm::main()) p = new colvarproxy_stub(); }
 }
